@@ -371,8 +371,10 @@ impl World {
                 continue;
             }
             for (i, ((act, key), m)) in chain.iter().zip(&mchain).enumerate() {
-                if *act != m.activated {
-                    self.fail("C06.f", format!("after {op}: secret #{i} of {} activated={act}, expected {}", self.show_right(&r), m.activated));
+                // only the newest secret decides whether the right is published; the flags of
+                // older secrets are internal and not compared
+                if i == 0 && *act != m.activated {
+                    self.fail("C06.f", format!("after {op}: newest secret of {} activated={act}, expected {}", self.show_right(&r), m.activated));
                 }
                 if key.hybrid() != m.hybrid {
                     self.fail("C11.a", format!("after {op}: secret #{i} of {} hybrid={}, expected {}", self.show_right(&r), key.hybrid(), m.hybrid));
@@ -858,28 +860,42 @@ impl World {
         Some(matches!(r, Ok(Ok(()))))
     }
 
-    /// A freshly generated key holds exactly the newest secret of every right of its policy.
+    /// A freshly generated key holds the newest secret of every right of its policy (so that it
+    /// opens what is encapsulated now), no right outside its policy, and nothing that is not in
+    /// the master key. The model then adopts what the key really holds.
     fn check_issued(&mut self, k: usize, what: &str) {
         let Some((w, got)) = self.decode_usk(k, what) else { return };
         let want = self.usks[k].model.held.clone();
-        let got_rights: BTreeSet<&RightM> = got.keys().collect();
-        let want_rights: BTreeSet<&RightM> = want.keys().collect();
-        if got_rights != want_rights {
-            let g: Vec<String> = got_rights.iter().map(|r| self.show_right(r)).collect();
-            let x: Vec<String> = want_rights.iter().map(|r| self.show_right(r)).collect();
-            self.fail("C01.k", format!("{what}: new key holds rights {g:?}, expected {x:?}"));
+        for r in got.keys() {
+            if !want.contains_key(r) {
+                self.fail("C02.k", format!("{what}: new key holds right {} which its policy does not give", self.show_right(r)));
+            }
         }
-        for (r, vs) in &got {
-            if let Some(w) = want.get(r) {
-                let wv: Vec<Option<Ver>> = w.iter().map(|v| Some(*v)).collect();
-                if &wv != vs {
-                    self.fail("C04.k", format!("{what}: new key holds versions {vs:?} of {}, expected the newest {wv:?}", self.show_right(r)));
+        for (r, newest) in &want {
+            match got.get(r) {
+                None => self.fail("C01.k", format!("{what}: new key lacks right {}", self.show_right(r))),
+                Some(vs) => {
+                    if !vs.contains(&Some(newest[0])) {
+                        self.fail("C01.k", format!("{what}: new key lacks the newest secret of {}; holds {vs:?}", self.show_right(r)));
+                    }
+                    let chain: Vec<Ver> = self.model.master.get(r).map(|c| c.iter().map(|e| e.ver).collect()).unwrap_or_default();
+                    if vs.iter().any(|v| v.map_or(true, |v| !chain.contains(&v))) {
+                        self.fail("C05.a", format!("{what}: new key holds a secret of {} that is not in the master chain", self.show_right(r)));
+                    }
                 }
             }
         }
         if w.sig.is_none() {
             self.fail("C08.s", format!("{what}: new key is not signed"));
         }
+        let mut held = BTreeMap::new();
+        for (r, vs) in got {
+            let v: Vec<Ver> = vs.into_iter().flatten().collect();
+            if !v.is_empty() {
+                held.insert(r, v);
+            }
+        }
+        self.usks[k].model.held = held;
     }
 
     /// After an Ok refresh: must ⊆ held ⊆ may, per right; then the model adopts what is held.
@@ -913,9 +929,6 @@ impl World {
                     }
                     _ => {}
                 }
-            }
-            if have.first().copied().flatten() != Some(newest) && have_set.contains(&newest) {
-                self.fail("C04.o", format!("{what}: chain of {} does not start with the newest secret: {have:?}", self.show_right(r)));
             }
         }
         // adopt the observed content (known versions only) for later predictions
